@@ -33,8 +33,7 @@ TRUSTED_BASE = [
 ]
 
 
-class Infra(Exception):
-    pass
+from common import Infra  # noqa: E402  (one class for "the check could not run": exit 2)
 
 
 def strip_lean_comments(src):
